@@ -30,7 +30,7 @@ var discardTable = map[string]struct {
 	"httpgrpc|Close":             {2, "closing a reply body that was read completely / drained"},
 	"httpgrpc|ReadAll":           {1, "deferred drain of the reply body so the connection can be reused"},
 	"httpgrpc|CloseWithError":    {1, "always returns nil (io.Pipe contract)"},
-	"httpgrpc|done-probe":        {1, "SendMsg only needs the 'done' flag to refuse a send; the terminal error itself is reported by RecvMsg"},
+	"httpgrpc|done-probe":        {2, "SendMsg only needs the 'done' flag to refuse a send, or to report a send that the call's completion cut short as io.EOF; the terminal error itself is reported by RecvMsg"},
 	"httpgrpc|ParseMediaType":    {2, "an unparsable Content-Type yields an empty media type, hence no codec, hence 415 (C11/R1)"},
 }
 
